@@ -1005,6 +1005,14 @@ pub mod std {
             pub uninterp spec fn mode(&self) -> int;
 
             #[verifier::external_body]
+            pub fn readonly(&self) -> (r: bool)
+                ensures
+                    r == !self.writable(),
+            {
+                unimplemented!()
+            }
+
+            #[verifier::external_body]
             pub fn set_readonly(&mut self, readonly: bool)
                 ensures
                     final(self).writable() == !readonly,
@@ -1081,6 +1089,7 @@ pub mod std {
                     old(w).inv(),
                     old(w).inodes.contains_key(self.ino()),
                     !perm.writable() || forall|q: PathV| #[trigger] old(w).files.contains_key(q) && old(w).files[q] == self.ino() ==> !old(w).in_cache_namespace(q),   // @L C03 C19:write-permission-is-never-added-to-a-visible-file
+                    old(w).not_ro_linked(self.ino()),   // @L C15:nothing-under-a-read-only-root-is-ever-re-moded
                 ensures
                     final(w).stepped(*old(w)),
                     final(w).inv(),
@@ -1360,7 +1369,12 @@ pub mod std {
                         &&& old(w).files.contains_key(pv(from))
                         &&& old(w).dirs.contains(parent(pv(to)))
                         &&& final(w).hard_faults == old(w).hard_faults
-                        &&& final(w).files == old(w).files.remove(pv(from)).insert(pv(to), old(w).files[pv(from)])
+                        // POSIX: if `from` and `to` are links to the same file, rename does nothing and succeeds
+                        &&& final(w).files == (if old(w).files.contains_key(pv(to)) && old(w).files[pv(to)] == old(w).files[pv(from)] {
+                            old(w).files
+                        } else {
+                            old(w).files.remove(pv(from)).insert(pv(to), old(w).files[pv(from)])
+                        })
                         &&& final(w).dirs == old(w).dirs
                         &&& final(w).inodes == old(w).inodes
                     },
@@ -1407,6 +1421,32 @@ pub mod std {
                         &&& final(w).hard_faults == old(w).hard_faults + if absent_err(e) || exists_err(e) { 0nat } else { 1nat }
                     },
                 },
+        {
+            unimplemented!()
+        }
+
+        /// std::fs::copy(from, to): creates `to` and streams the bytes of `from` into it, in place.  PROTOCOL (C01 C03
+        /// C19): bytes are never streamed into a name a reader can look up; only a fresh private path may be the target.
+        #[verifier::external_body]
+        pub fn copy(from: &Path, to: &Path, Tracked(w): Tracked<&mut World>) -> (r: std::io::Result<u64>)
+            requires
+                old(w).inv(),
+                old(w).owned.contains(pv(to)) && !old(w).in_cache_namespace(pv(to)) && !old(w).under_ro(pv(to)) && !(pv(to).len() > 0 && old(w).under_ro(parent(pv(to))))
+                    && !old(w).files.contains_key(pv(to)) && !old(w).dirs.contains(pv(to)),   // @L C01 C03 C19 C15:bytes-are-never-streamed-into-a-visible-name
+            ensures
+                final(w).inv(),
+                final(w).kept(*old(w)) && final(w).listed == old(w).listed && final(w).published == old(w).published && final(w).now == old(w).now,
+                final(w).supplied == old(w).supplied && final(w).owned == old(w).owned && final(w).app_errors == old(w).app_errors && final(w).app_not_found == old(w).app_not_found,
+                final(w).opens == old(w).opens + 2 && final(w).steps == old(w).steps + 1,
+                final(w).hard_faults == old(w).hard_faults + if r.is_err() && !(absent_err(err_of(r)) && !old(w).files.contains_key(pv(from))) { 1nat } else { 0nat },
+                final(w).dirs == old(w).dirs,
+                forall|p: PathV| p != pv(to) ==> (#[trigger] final(w).files.contains_key(p) <==> old(w).files.contains_key(p)) && (old(w).files.contains_key(p) ==> final(w).files[p] == old(w).files[p]),
+                forall|i: InodeId| #[trigger] old(w).inodes.contains_key(i) ==> final(w).inodes.contains_key(i) && final(w).inodes[i] == (Inode { atime: final(w).inodes[i].atime, ..old(w).inodes[i] }),
+                final(w).files.contains_key(pv(to)) ==> !old(w).inodes.contains_key(final(w).files[pv(to)]) && final(w).inodes.contains_key(final(w).files[pv(to)])
+                    && final(w).inodes[final(w).files[pv(to)]].mtime == trunc(final(w).now, old(w).gran),
+                forall|i: InodeId| #[trigger] final(w).inodes.contains_key(i) ==> old(w).inodes.contains_key(i) || (final(w).files.contains_key(pv(to)) && i == final(w).files[pv(to)]),
+                r.is_ok() ==> old(w).files.contains_key(pv(from)) && final(w).files.contains_key(pv(to))
+                    && final(w).inodes[final(w).files[pv(to)]].content == old(w).inode_at(pv(from)).content,
         {
             unimplemented!()
         }
